@@ -1041,3 +1041,468 @@ Proof.
   - rewrite Hwh. exact Hnw.
   - rewrite Hwh. exact Hcatch.
 Qed.
+
+(* ---- C03_at_most_one_move ----------------------------------------------------------------- *)
+(* targets of the moves in a log (newest first), oldest first *)
+Fixpoint log_moves (l : list ev) : list bytes :=
+  match l with
+  | [] => []
+  | EvMove _ t _ :: l' => log_moves l' ++ [t]
+  | _ :: l' => log_moves l'
+  end.
+Lemma log_moves_app a : forall b, log_moves (a ++ b) = log_moves b ++ log_moves a.
+Proof.
+  induction a as [|e a IH]; intros b; cbn [List.app log_moves]; [rewrite app_nil_r; reflexivity|].
+  destruct e; rewrite IH; try reflexivity. rewrite app_assoc. reflexivity.
+Qed.
+Lemma block_log_moves l : forall acc, log_moves (block_log l acc) = log_moves acc.
+Proof. induction l as [|ds l IH]; intros acc; [reflexivity|]. cbn [block_log]. rewrite IH. reflexivity. Qed.
+(* the INCMP events of a log (newest first) that fired *)
+Fixpoint log_fired (l : list ev) : list (bytes * bytes) :=
+  match l with
+  | [] => []
+  | EvInCmp d s true :: l' => log_fired l' ++ [(d, s)]
+  | _ :: l' => log_fired l'
+  end.
+Lemma block_log_fired l : forall acc, log_fired (block_log l acc) = log_fired acc.
+Proof. induction l as [|ds l IH]; intros acc; [reflexivity|]. cbn [block_log]. rewrite IH. reflexivity. Qed.
+
+Lemma fire_vm_facts rs sep vI d s st' ca' nsym input :
+  s_input (v_st vI) = Some input -> flags_ok (v_st vI) ->
+  getf (v_st vI) FLAG_TERMINATE = false -> getf (v_st vI) FLAG_WAIT = false ->
+  only_pos (match_st (v_st vI)) st' ->
+  forall vF, vF = fire_vm rs sep vI d s st' ca' nsym ->
+  sk_inv input vF vF /\ getf (v_st vF) FLAG_READIN = false /\ v_st vF = st' /\ v_ca vF = ca'
+  /\ v_log vF = (if rs_observed rs then [EvCode nsym] else []) ++
+                EvMove 1 d nsym :: EvInCmp d s true :: v_log vI.
+Proof.
+  intros Hi Hf Ht Hwt Ho vF ->.
+  destruct (match_st_facts _ Hf) as (M1 & M2 & M3 & M4 & M5 & M6).
+  assert (E1 : v_st (fire_vm rs sep vI d s st' ca' nsym) = st') by (unfold fire_vm; destruct (rs_observed rs); reflexivity).
+  assert (E2 : v_ca (fire_vm rs sep vI d s st' ca' nsym) = ca') by (unfold fire_vm; destruct (rs_observed rs); reflexivity).
+  unfold sk_inv. rewrite E1, E2.
+  split; [|split; [rewrite (only_pos_getf _ _ _ Ho); exact M2|split; [reflexivity|split; [reflexivity|]]]].
+  - split; [rewrite (only_pos_getf _ _ _ Ho), M3 by fneq; exact Ht|].
+    split; [rewrite (only_pos_input _ _ Ho), M5; exact Hi|].
+    split; [rewrite (only_pos_getf _ _ _ Ho), M3 by fneq; exact Hwt|].
+    split; [rewrite (only_pos_getf _ _ _ Ho); exact M1|].
+    split; [apply (only_pos_flags_ok _ _ Ho); exact M6|].
+    split; [reflexivity|]. split; reflexivity.
+  - unfold fire_vm. destruct (rs_observed rs); reflexivity.
+Qed.
+
+Lemma at_most_one_move_aux fuel rs sep lang input l1 d s l2 r v vI langI st' ca' nsym code :
+  wf_block l2 -> distinct_after l2 input = true ->
+  (pos_of (v_st vI) = pos_of (v_st v) /\ v_ca vI = v_ca v
+   /\ v_log vI = EvInstr op_INCMP :: block_log l1 (v_log v)
+   /\ s_input (v_st vI) = Some input /\ flags_ok (v_st vI)
+   /\ getf (v_st vI) FLAG_TERMINATE = false /\ getf (v_st vI) FLAG_WAIT = false
+   /\ getf (v_st vI) FLAG_INMATCH = false) ->
+  (out_of_fuel (run fuel rs sep lang (incmp_block (l1 ++ (d, s) :: l2) ++ r) v) \/
+   exists f, (f < fuel)%nat /\
+     run fuel rs sep lang (incmp_block (l1 ++ (d, s) :: l2) ++ r) v =
+     run_post f rs sep langI (match_outcome rs sep d s (incmp_block l2 ++ r) vI)) ->
+  apply_target d (match_st (v_st vI)) (v_ca vI) = (st', ca', nsym, SOk) ->
+  rs_code rs nsym = Ok code ->
+  forall vF, vF = fire_vm rs sep vI d s st' ca' nsym ->
+  forall lv, lv = scan_skip (langI, vF) l2 ->
+  (out_of_fuel (run fuel rs sep lang (incmp_block (l1 ++ (d, s) :: l2) ++ r) v) \/
+   exists f, (f < fuel)%nat /\
+     run fuel rs sep lang (incmp_block (l1 ++ (d, s) :: l2) ++ r) v =
+     run_post f rs sep (fst lv) (snd lv, r ++ code, SOk))
+  /\ pos_of (v_st (snd lv)) = pos_of st' /\ v_ca (snd lv) = ca'
+  /\ v_log (snd lv) = block_log l2 (v_log vF)
+  /\ log_moves (v_log (snd lv)) = log_moves (v_log v) ++ [d]
+  /\ log_fired (v_log (snd lv)) = log_fired (v_log v) ++ [(d, s)].
+Proof.
+  intros Hw2 Hdist F G Ha Hc vF EvF lv Elv.
+  destruct F as (Hp & Hca & Hlog & Hi & Hf & Ht & Hwt & Him).
+  pose proof (apply_target_only_pos _ _ _ _ _ _ _ Ha) as Ho.
+  destruct (fire_vm_facts rs sep vI d s st' ca' nsym input Hi Hf Ht Hwt Ho vF EvF) as (Hsk & HrF & HsF & HcF & HlF).
+  pose proof (scan_skip_inv input vF l2 langI vF Hsk) as (Ht' & Hi' & Hw' & Hm' & Hf' & Hp' & Hc' & Hr').
+  rewrite <- Elv in Ht', Hi', Hw', Hm', Hf', Hp', Hc', Hr'.
+  assert (HL : v_log (snd lv) = block_log l2 (v_log vF)) by (rewrite Elv; apply scan_skip_log).
+  split.
+  - destruct G as [H|(f & Hf0 & H)]; [left; exact H|].
+    unfold match_outcome in H. rewrite Ha, Hc, <- EvF, <- app_assoc in H.
+    destruct (scan_skip_post rs sep input l2 f langI (r ++ code) vF Hsk Hw2 (or_intror Hdist)) as [H2|(f' & Hf'' & H2)].
+    + left. rewrite H. exact H2.
+    + right. exists f'. split; [lia|]. rewrite H, Elv. exact H2.
+  - split; [rewrite Hp', HsF; reflexivity|]. split; [rewrite Hc'; exact HcF|]. split; [exact HL|].
+    rewrite HL, block_log_moves, block_log_fired, HlF, Hlog. split.
+    + destruct (rs_observed rs); cbn [List.app log_moves]; rewrite block_log_moves; reflexivity.
+    + destruct (rs_observed rs); cbn [List.app log_fired]; rewrite block_log_fired; reflexivity.
+Qed.
+
+(* Full statement (FALSE, see at_most_one_move_refuted_dupsel): the same without `distinct_after`.
+   Partial: if no later line of the block repeats the input literally (wildcards are fine: `*`
+   does not match once INMATCH is set), no line of l2 fires and the only move is the first match's;
+   the target's code, appended after the rest of the block and r, runs next. *)
+Lemma at_most_one_move_partial_lemma : forall fuel rs sep lang input l1 d s l2 r v st' ca' nsym code,
+  routing_start input v -> wf_block l1 -> wf_sym d -> wf_sym s -> wf_block l2 ->
+  no_match input l1 = true -> sel_match input s = true ->
+  distinct_after l2 input = true ->
+  let vI := snd (at_match lang v l1) in
+  apply_target d (match_st (v_st vI)) (v_ca vI) = (st', ca', nsym, SOk) ->
+  rs_code rs nsym = Ok code ->
+  let vF := fire_vm rs sep vI d s st' ca' nsym in
+  let lv := scan_skip (fst (at_match lang v l1), vF) l2 in
+  (out_of_fuel (run fuel rs sep lang (incmp_block (l1 ++ (d, s) :: l2) ++ r) v) \/
+   exists f, (f < fuel)%nat /\
+     run fuel rs sep lang (incmp_block (l1 ++ (d, s) :: l2) ++ r) v =
+     run_post f rs sep (fst lv) (snd lv, r ++ code, SOk))
+  /\ pos_of (v_st (snd lv)) = pos_of st' /\ v_ca (snd lv) = ca'
+  /\ v_log (snd lv) = block_log l2 (v_log vF)
+  /\ log_moves (v_log (snd lv)) = log_moves (v_log v) ++ [d]
+  /\ log_fired (v_log (snd lv)) = log_fired (v_log v) ++ [(d, s)].
+Proof.
+  intros fuel rs sep lang input l1 d s l2 r v st' ca' nsym code Hs Hw1 Hd Hsel Hw2 Hn Hm Hdist. cbv zeta. intros Ha Hc.
+  exact (at_most_one_move_aux fuel rs sep lang input l1 d s l2 r v (snd (at_match lang v l1)) (fst (at_match lang v l1))
+           st' ca' nsym code Hw2 Hdist (at_match_facts lang v l1 input Hs)
+           (first_match_general fuel rs sep lang input l1 d s l2 r v Hs Hw1 Hd Hsel Hn Hm) Ha Hc
+           _ eq_refl _ eq_refl).
+Qed.
+
+(* wildcards never violate the guard (the engine accepts no input "*": valid_input_b) *)
+Lemma distinct_after_wildcards input l :
+  input <> star -> Forall (fun ds => snd ds = star) l -> distinct_after l input = true.
+Proof.
+  intros Hne Hl. unfold distinct_after. apply forallb_forall. rewrite Forall_forall in Hl.
+  intros ds Hin. rewrite (Hl ds Hin). apply negb_true_iff.
+  destruct (bytes_eqb star input) eqn:E; [|reflexivity]. apply BytesProofs.bytes_eqb_eq in E. congruence.
+Qed.
+Lemma valid_input_not_star input : valid_input_b input = true -> input <> star.
+Proof. intros H E. subst input. vm_compute in H. discriminate. Qed.
+
+(* finding K-C03-dupsel: root = HALT; INCMP foo 1; INCMP bar 1, input "1" => root/foo/bar *)
+Definition dupsel_app : app :=
+  mkApp [(s2b "root", encode_prog [IHalt; IInCmp (s2b "foo") (s2b "1"); IInCmp (s2b "bar") (s2b "1")]);
+         (s2b "foo", encode_prog [IHalt]); (s2b "bar", encode_prog [IHalt])] [] [] [].
+(* the machine after MOVE root ran up to the HALT, with the client's answer "1" *)
+Definition dupsel_vm : vmst :=
+  let v0 := mkVm (set_input_raw (new_state 8) (Some [])) (new_cache 0) (vm_reset [] new_page) [] [] false in
+  let '(v1, _, _) := run 10 (app_rsrc dupsel_app) [] None (encode (IMove (s2b "root"))) v0 in
+  vset_st v1 (set_input_raw (v_st v1) (Some (s2b "1"))).
+
+Lemma at_most_one_move_refuted_dupsel_lemma :
+  exists fuel rs sep lang input l1 d s l2 r v st' ca' nsym code,
+    routing_start input v /\ getf (v_st v) FLAG_WAIT = true
+    /\ wf_block l1 /\ wf_sym d /\ wf_sym s /\ wf_block l2
+    /\ no_match input l1 = true /\ sel_match input s = true
+    /\ apply_target d (match_st (v_st (snd (at_match lang v l1)))) (v_ca (snd (at_match lang v l1))) = (st', ca', nsym, SOk)
+    /\ rs_code rs nsym = Ok code
+    /\ distinct_after l2 input = false
+    /\ (let '(v', b, st) := run fuel rs sep lang (incmp_block (l1 ++ (d, s) :: l2) ++ r) v in
+        st = SOk /\ s_path (v_st v) = [s2b "root"]
+        /\ s_path (v_st v') = [s2b "root"; s2b "foo"; s2b "bar"]
+        /\ log_moves (v_log v') = log_moves (v_log v) ++ [s2b "foo"; s2b "bar"]
+        /\ log_fired (v_log v') = log_fired (v_log v) ++ [(s2b "foo", s2b "1"); (s2b "bar", s2b "1")]).
+Proof.
+  exists 10%nat, (app_rsrc dupsel_app), [], None, (s2b "1"), [], (s2b "foo"), (s2b "1"), [(s2b "bar", s2b "1")], [], dupsel_vm.
+  do 4 eexists.
+  split; [unfold routing_start, unmatched, flags_ok; vm_compute; repeat split; try reflexivity; try (left; reflexivity); lia|].
+  split; [vm_compute; reflexivity|].
+  split; [constructor|].
+  assert (W : forall x, x = s2b "foo" \/ x = s2b "bar" \/ x = s2b "1" -> wf_sym x).
+  { intros x [->|[->| ->]]; (split; [repeat constructor|vm_compute; split; discriminate]). }
+  split; [apply W; auto|]. split; [apply W; auto|].
+  split; [constructor; [split; apply W; cbn [fst snd]; auto|constructor]|].
+  split; [reflexivity|]. split; [vm_compute; reflexivity|].
+  split; [vm_compute; reflexivity|].
+  split; [vm_compute; reflexivity|].
+  split; [vm_compute; reflexivity|].
+  vm_compute. repeat split; reflexivity.
+Qed.
+
+(* READIN as the last HALT left it is irrelevant to a routing block: with INMATCH clear (which the
+   prelude guarantees on resume) the handler behaves as if READIN were set.  (A stale READIN does
+   matter to runDeadCheck when code runs out without any INCMP having been executed: it then
+   reports invalid input and moves to _catch instead of terminating; see the integration note.) *)
+Lemma run_incmp_readin_irrelevant rs sep d s b v :
+  getf (v_st v) FLAG_INMATCH = false ->
+  run_incmp rs sep d s b v = run_incmp rs sep d s b (vset_st v (setf (v_st v) FLAG_READIN)).
+Proof.
+  intros Hm. unfold run_incmp. cbn [v_st vset_st]. rewrite getf_setf_other by fneq. rewrite Hm.
+  cbn [andb]. rewrite setf_idem. reflexivity.
+Qed.
+
+(* ================================================================================== *)
+(* Part C — C04 for `run`: the position changes only through logged moves               *)
+(* ================================================================================== *)
+
+Definition cache_ok (ca : cache) : Prop := c_frames ca <> [].
+
+(* v' is reached from v by moves that are all in the log, each a row of the code's table *)
+Definition pos_follows (v v' : vmst) : Prop :=
+  cache_ok (v_ca v') /\
+  exists new, v_log v' = new ++ v_log v
+    /\ nav_fold nav_code (pos_of (v_st v)) (log_moves new) = Some (pos_of (v_st v')).
+(* nothing moved, nothing was logged as a move, the cache is the same *)
+Definition quiet (v v' : vmst) : Prop :=
+  pos_of (v_st v') = pos_of (v_st v) /\ v_ca v' = v_ca v
+  /\ exists new, v_log v' = new ++ v_log v /\ log_moves new = [].
+
+Lemma nav_fold_app step a : forall p b,
+  nav_fold step p (a ++ b) = match nav_fold step p a with Some p' => nav_fold step p' b | None => None end.
+Proof.
+  induction a as [|m a IH]; intros p b; [reflexivity|]. cbn [List.app nav_fold].
+  destruct (step p m); [apply IH|reflexivity].
+Qed.
+
+Lemma quiet_refl v : quiet v v.
+Proof. split; [reflexivity|]. split; [reflexivity|]. exists []. split; reflexivity. Qed.
+Lemma quiet_trans a b c : quiet a b -> quiet b c -> quiet a c.
+Proof.
+  intros (P1 & C1 & n1 & L1 & M1) (P2 & C2 & n2 & L2 & M2). split; [congruence|]. split; [congruence|].
+  exists (n2 ++ n1). split; [rewrite L2, L1, app_assoc; reflexivity|]. rewrite log_moves_app, M1, M2. reflexivity.
+Qed.
+Lemma pf_refl v : cache_ok (v_ca v) -> pos_follows v v.
+Proof. intros H. split; [exact H|]. exists []. split; reflexivity. Qed.
+Lemma pf_trans a b c : pos_follows a b -> pos_follows b c -> pos_follows a c.
+Proof.
+  intros (C1 & n1 & L1 & F1) (C2 & n2 & L2 & F2). split; [exact C2|].
+  exists (n2 ++ n1). split; [rewrite L2, L1, app_assoc; reflexivity|].
+  rewrite log_moves_app, nav_fold_app, F1. exact F2.
+Qed.
+Lemma quiet_pf a b : cache_ok (v_ca a) -> quiet a b -> pos_follows a b.
+Proof.
+  intros H (P & C & n & L & M). split; [rewrite C; exact H|]. exists n. split; [exact L|].
+  rewrite M, P. reflexivity.
+Qed.
+Lemma quiet_cache_ok a b : quiet a b -> cache_ok (v_ca a) -> cache_ok (v_ca b).
+Proof. intros (_ & C & _) H. rewrite C. exact H. Qed.
+Lemma pf_quiet_l a b c : cache_ok (v_ca a) -> quiet a b -> pos_follows b c -> pos_follows a c.
+Proof. intros H Q F. eapply pf_trans; [apply quiet_pf; eassumption|exact F]. Qed.
+Lemma pf_quiet_r a b c : pos_follows a b -> quiet b c -> pos_follows a c.
+Proof. intros F Q. eapply pf_trans; [exact F|]. apply quiet_pf; [apply F|exact Q]. Qed.
+
+(* building blocks *)
+Lemma quiet_vlog v e : match e with EvMove _ _ _ => False | _ => True end -> quiet v (vlog v e).
+Proof.
+  intros He. split; [reflexivity|]. split; [reflexivity|]. exists [e]. split; [reflexivity|].
+  destruct e; try contradiction; reflexivity.
+Qed.
+Lemma quiet_set_pg v pg : quiet v (vset_pg v pg).
+Proof. split; [reflexivity|]. split; [reflexivity|]. exists []. split; reflexivity. Qed.
+Lemma quiet_taint v : quiet v (vtaint v).
+Proof. split; [reflexivity|]. split; [reflexivity|]. exists []. split; reflexivity. Qed.
+Lemma quiet_set_w v w : quiet v (vset_w v w).
+Proof. split; [reflexivity|]. split; [reflexivity|]. exists []. split; reflexivity. Qed.
+Lemma quiet_set_st v st : pos_of st = pos_of (v_st v) -> quiet v (vset_st v st).
+Proof. intros H. split; [exact H|]. split; [reflexivity|]. exists []. split; reflexivity. Qed.
+Lemma sbf_pos a b : same_but_flags a b -> pos_of b = pos_of a.
+Proof. intros (_ & Hp & _ & Hi & _). unfold pos_of. rewrite Hp, Hi. reflexivity. Qed.
+
+(* one call of applyTarget on a cache with at least one frame *)
+Lemma cache_ok_push ca : cache_ok (cache_push ca).
+Proof. unfold cache_ok, cache_push. cbn [c_frames]. destruct (c_frames ca); discriminate. Qed.
+Lemma apply_follows t st ca st' ca' nsym r :
+  cache_ok ca -> apply_target t st ca = (st', ca', nsym, r) ->
+  cache_ok ca'
+  /\ (r = SOk -> nav_code (pos_of st) t = Some (pos_of st'))
+  /\ (r <> SOk -> st' = st /\ ca' = ca).
+Proof.
+  intros Hc Ha. assert (Hcase : r = SOk \/ r <> SOk) by (destruct r; [left; reflexivity|right; discriminate ..]).
+  destruct Hcase as [->|Hr].
+  - destruct (apply_ok_exact _ _ _ _ _ _ Hc Ha) as (H1 & _ & _ & H4). split.
+    + rewrite H4. destruct (valid_sym_b t); [apply cache_ok_push|apply pops_ne; exact Hc].
+    + split; [intros _; exact H1|intros H; congruence].
+  - destruct (apply_fail_unchanged _ _ _ _ _ _ _ Hc Ha Hr) as [-> ->].
+    split; [exact Hc|]. split; [intros H; congruence|auto].
+Qed.
+
+Lemma pf_move v v' t new :
+  cache_ok (v_ca v') -> v_log v' = new ++ v_log v -> log_moves new = [t] ->
+  nav_code (pos_of (v_st v)) t = Some (pos_of (v_st v')) -> pos_follows v v'.
+Proof.
+  intros Hc Hl Hm Hn. split; [exact Hc|]. exists new. split; [exact Hl|]. rewrite Hm. cbn [nav_fold]. rewrite Hn. reflexivity.
+Qed.
+Lemma pf_same v v' new :
+  cache_ok (v_ca v') -> v_log v' = new ++ v_log v -> log_moves new = [] ->
+  pos_of (v_st v') = pos_of (v_st v) -> pos_follows v v'.
+Proof.
+  intros Hc Hl Hm Hp. split; [exact Hc|]. exists new. split; [exact Hl|]. rewrite Hm, Hp. reflexivity.
+Qed.
+
+(* ---- handlers ------------------------------------------------------------------------------ *)
+Lemma run_catch_follows rs sym sig mode b v v' b' s :
+  cache_ok (v_ca v) -> run_catch rs sym sig mode b v = (v', b', s) -> pos_follows v v'.
+Proof.
+  intros Hc H. unfold run_catch in H.
+  destruct (match_flag (v_st v) sig mode) as [[|]| |]; try (inversion H; subst; apply pf_refl; exact Hc).
+  destruct (apply_target sym (v_st v) (v_ca v)) as [[[st' ca'] nsym] r] eqn:Ea.
+  destruct (apply_follows _ _ _ _ _ _ _ Hc Ea) as (Hc' & Hok & Hfail).
+  destruct r as [|e m|n|].
+  - unfold fetch_code in H.
+    assert (Hv : pos_follows v (if rs_observed rs
+                                then vlog (vlog (vset_ca (vset_st v st') ca') (EvMove 2 sym nsym)) (EvCode nsym)
+                                else vlog (vset_ca (vset_st v st') ca') (EvMove 2 sym nsym))).
+    { destruct (rs_observed rs).
+      - apply (pf_move _ _ sym [EvCode nsym; EvMove 2 sym nsym]); [exact Hc'|reflexivity|reflexivity|apply Hok; reflexivity].
+      - apply (pf_move _ _ sym [EvMove 2 sym nsym]); [exact Hc'|reflexivity|reflexivity|apply Hok; reflexivity]. }
+    destruct (rs_code rs nsym); inversion H; subst; exact Hv.
+  - destruct Hfail as [-> ->]; [discriminate|]. inversion H; subst. destruct v; apply pf_refl; exact Hc.
+  - destruct Hfail as [-> ->]; [discriminate|]. inversion H; subst. destruct v; apply pf_refl; exact Hc.
+  - destruct Hfail as [-> ->]; [discriminate|]. inversion H; subst. destruct v; apply pf_refl; exact Hc.
+Qed.
+
+Lemma run_move_follows rs sep sym b v v' b' s :
+  cache_ok (v_ca v) -> run_move rs sep sym b v = (v', b', s) -> pos_follows v v'.
+Proof.
+  intros Hc H. unfold run_move in H.
+  destruct (apply_target sym (v_st v) (v_ca v)) as [[[st' ca'] nsym] r] eqn:Ea.
+  destruct (apply_follows _ _ _ _ _ _ _ Hc Ea) as (Hc' & Hok & Hfail).
+  destruct r as [|e m|n|].
+  - unfold fetch_code in H.
+    assert (Hv : pos_follows v (if rs_observed rs
+                                then vlog (vlog (vset_ca (vset_st v st') ca') (EvMove 0 sym nsym)) (EvCode nsym)
+                                else vlog (vset_ca (vset_st v st') ca') (EvMove 0 sym nsym))).
+    { destruct (rs_observed rs).
+      - apply (pf_move _ _ sym [EvCode nsym; EvMove 0 sym nsym]); [exact Hc'|reflexivity|reflexivity|apply Hok; reflexivity].
+      - apply (pf_move _ _ sym [EvMove 0 sym nsym]); [exact Hc'|reflexivity|reflexivity|apply Hok; reflexivity]. }
+    destruct (rs_code rs nsym); inversion H; subst; exact Hv.
+  - destruct Hfail as [-> ->]; [discriminate|]. inversion H; subst. destruct v; apply pf_refl; exact Hc.
+  - destruct Hfail as [-> ->]; [discriminate|]. inversion H; subst. destruct v; apply pf_refl; exact Hc.
+  - destruct Hfail as [-> ->]; [discriminate|]. inversion H; subst. destruct v; apply pf_refl; exact Hc.
+Qed.
+
+Lemma run_incmp_follows rs sep dest sel b v v' b' s :
+  cache_ok (v_ca v) -> run_incmp rs sep dest sel b v = (v', b', s) -> pos_follows v v'.
+Proof.
+  intros Hc H. unfold run_incmp in H.
+  destruct (getf (v_st v) FLAG_INMATCH && getf (v_st v) FLAG_READIN).
+  { inversion H; subst. apply quiet_pf; [exact Hc|]. apply quiet_vlog. exact I. }
+  set (st1 := if getf (v_st v) FLAG_INMATCH then v_st v else setf (v_st v) FLAG_READIN) in *.
+  assert (Hp1 : pos_of st1 = pos_of (v_st v)) by (subst st1; destruct (getf (v_st v) FLAG_INMATCH); reflexivity).
+  assert (Hq1 : quiet v (vset_st v st1)) by (apply quiet_set_st; exact Hp1).
+  cbn [v_st vset_st v_ca vset_ca] in H.
+  destruct (s_input st1) as [input|]; [|inversion H; subst; apply quiet_pf; assumption].
+  destruct ((negb (getf (v_st v) FLAG_INMATCH) && bytes_eqb sel star) || bytes_eqb sel input).
+  2:{ inversion H; subst. apply quiet_pf; [exact Hc|]. eapply quiet_trans; [exact Hq1|]. apply quiet_vlog. exact I. }
+  set (st2 := resetf (setf st1 FLAG_INMATCH) FLAG_READIN) in *.
+  destruct (apply_target dest st2 (v_ca v)) as [[[st' ca'] nsym] r] eqn:Ea.
+  destruct (apply_follows _ _ _ _ _ _ _ Hc Ea) as (Hc' & Hok & Hfail).
+  assert (Hp2 : pos_of st2 = pos_of (v_st v)) by (subst st2; rewrite pos_resetf, pos_setf; exact Hp1).
+  destruct r as [|e m|n|].
+  - unfold fetch_code in H. cbn [v_pg vset_ca vset_st] in H.
+    specialize (Hok eq_refl). rewrite Hp2 in Hok.
+    destruct (rs_observed rs); destruct (rs_code rs nsym); inversion H; subst;
+      first [ apply (pf_move _ _ dest [EvCode nsym; EvMove 1 dest nsym; EvInCmp dest sel true]); [exact Hc'|reflexivity|reflexivity|exact Hok]
+            | apply (pf_move _ _ dest [EvMove 1 dest nsym; EvInCmp dest sel true]); [exact Hc'|reflexivity|reflexivity|exact Hok] ].
+  - destruct Hfail as [-> ->]; [discriminate|].
+    destruct e; inversion H; subst;
+      first [ apply (pf_same _ _ [EvInCmp dest sel false]); [exact Hc|reflexivity|reflexivity|cbn [v_st vlog vset_st]; rewrite ?pos_setf; exact Hp2]
+            | apply (pf_same _ _ []); [exact Hc|reflexivity|reflexivity|exact Hp2] ].
+  - destruct Hfail as [-> ->]; [discriminate|]. inversion H; subst.
+    apply (pf_same _ _ []); [exact Hc|reflexivity|reflexivity|exact Hp2].
+  - destruct Hfail as [-> ->]; [discriminate|]. inversion H; subst.
+    apply (pf_same _ _ []); [exact Hc|reflexivity|reflexivity|exact Hp2].
+Qed.
+
+Lemma cache_ok_reset ca : cache_ok ca -> cache_ok (cache_reset ca).
+Proof. unfold cache_ok, cache_reset. destruct (c_frames ca); [auto|]. intros _. cbn [c_frames]. discriminate. Qed.
+Lemma update_nth_ne {A} (f : A -> A) : forall l n, l <> [] -> update_nth n f l <> [].
+Proof. intros [|x l] [|n] H; cbn [update_nth]; try contradiction; discriminate. Qed.
+Lemma cache_ok_add ca k val lim ca' : cache_add ca k val lim = Ok ca' -> cache_ok ca'.
+Proof.
+  unfold cache_add, cache_ok. destruct ((0 <? lim) && (lim <? len val)); [discriminate|].
+  destruct (frame_of ca k) as [i|]; [destruct (i =? top_index ca); discriminate|].
+  destruct ((0 <? len val) && _); [discriminate|].
+  destruct (c_frames ca) as [|f fs] eqn:E; [discriminate|]. intros H. inversion H. cbn [c_frames].
+  apply update_nth_ne. discriminate.
+Qed.
+Lemma cache_ok_update ca k val : cache_ok ca -> cache_ok (fst (cache_update_raw ca k val)).
+Proof.
+  unfold cache_update_raw, cache_ok. intros Hc.
+  destruct ((0 <? _) && _); [exact Hc|]. destruct (frame_of ca k) as [i|]; [|exact Hc].
+  destruct ((_ =? 0) && _); cbn [fst c_frames]; repeat apply update_nth_ne; exact Hc.
+Qed.
+
+Lemma run_croak_follows sep sig mode b v v' b' s :
+  cache_ok (v_ca v) -> run_croak sep sig mode b v = (v', b', s) -> pos_follows v v'.
+Proof.
+  intros Hc H. unfold run_croak in H.
+  destruct (match_flag (v_st v) sig mode) as [[|]| |]; inversion H; subst; try (apply pf_refl; exact Hc).
+  apply (pf_same _ _ []); [apply cache_ok_reset; exact Hc|reflexivity|reflexivity|reflexivity].
+Qed.
+
+Lemma st_set_language_pos lk s c : pos_of (st_set_language lk s c) = pos_of s.
+Proof. unfold st_set_language. destruct c; destruct (lk _); reflexivity. Qed.
+
+Lemma refresh_quiet rs lang key v v' content s :
+  refresh rs lang key v = (v', content, s) -> quiet v v'.
+Proof.
+  intros H. unfold refresh in H.
+  destruct (rs_func rs key) as [script|]; [|inversion H; subst; apply quiet_refl].
+  destruct (nth_fres script _) as [fr|]; [|inversion H; subst; apply quiet_refl].
+  set (v1 := vlog (vset_w v _) _) in *.
+  assert (Q1 : quiet v v1).
+  { subst v1. eapply quiet_trans; [apply quiet_set_w|]. apply quiet_vlog. exact I. }
+  destruct (fr_fail fr).
+  - inversion H; subst. eapply quiet_trans; [exact Q1|]. apply quiet_set_st. reflexivity.
+  - destruct (apply_flags false (fr_reset fr) (v_st v1)) as [st1| |] eqn:H1; try (inversion H; subst; exact Q1).
+    destruct (apply_flags true (fr_set fr) st1) as [st2| |] eqn:H2; try (inversion H; subst; exact Q1).
+    inversion H; subst. eapply quiet_trans; [exact Q1|]. apply quiet_set_st.
+    destruct (apply_flags_reserved _ _ _ _ H1) as [_ S1]. destruct (apply_flags_reserved _ _ _ _ H2) as [_ S2].
+    pose proof (sbf_pos _ _ (sbf_trans _ _ _ S1 S2)) as Hp.
+    destruct (getf st2 FLAG_LANG); [rewrite st_set_language_pos|]; exact Hp.
+Qed.
+
+Lemma run_load_follows rs lang sym sz b v v' b' s :
+  cache_ok (v_ca v) -> run_load rs lang sym sz b v = (v', b', s) -> pos_follows v v'.
+Proof.
+  intros Hc H. unfold run_load in H.
+  destruct (cache_get (v_ca v) sym); try (inversion H; subst; apply pf_refl; exact Hc).
+  destruct (refresh rs lang sym v) as [[v1 content] s1] eqn:Hr.
+  pose proof (refresh_quiet _ _ _ _ _ _ _ Hr) as Q.
+  pose proof (quiet_pf _ _ Hc Q) as F.
+  destruct s1; try (inversion H; subst; exact F).
+  destruct (cache_add (v_ca v1) sym content (w16 sz)) as [ca'|e2|n2] eqn:Ha.
+  - inversion H; subst. destruct F as (_ & new & L & N). split; [apply (cache_ok_add _ _ _ _ _ Ha)|].
+    exists new. split; [exact L|exact N].
+  - destruct e2; inversion H; subst; exact F.
+  - inversion H; subst; exact F.
+Qed.
+
+Lemma run_reload_follows rs lang sym b v v' b' s :
+  cache_ok (v_ca v) -> run_reload rs lang sym b v = (v', b', s) -> pos_follows v v'.
+Proof.
+  intros Hc H. unfold run_reload in H.
+  destruct (refresh rs lang sym v) as [[v1 content] s1] eqn:Hr.
+  pose proof (refresh_quiet _ _ _ _ _ _ _ Hr) as Q.
+  pose proof (quiet_pf _ _ Hc Q) as F.
+  destruct s1; try (inversion H; subst; exact F).
+  pose proof (cache_ok_update (v_ca v1) sym content (proj1 F)) as Hu.
+  destruct (cache_update_raw (v_ca v1) sym content) as [ca' oe]. cbn [fst] in Hu.
+  assert (F2 : pos_follows v (vset_ca v1 ca')).
+  { destruct F as (_ & new & L & N). split; [exact Hu|]. exists new. split; [exact L|exact N]. }
+  cbn [v_ca v_pg vset_ca] in H.
+  destruct (page_map ca' (v_pg v1) sym); inversion H; subst; exact F2.
+Qed.
+
+Lemma run_map_follows sym b v v' b' s :
+  cache_ok (v_ca v) -> run_map sym b v = (v', b', s) -> pos_follows v v'.
+Proof.
+  intros Hc H. unfold run_map in H.
+  destruct (page_map (v_ca v) (v_pg v) sym); inversion H; subst; try (apply pf_refl; exact Hc).
+  apply quiet_pf; [exact Hc|apply quiet_set_pg].
+Qed.
+
+Lemma exec_instr_follows rs sep lang i b v v' b' s :
+  cache_ok (v_ca v) -> exec_instr rs sep lang i b v = (v', b', s) -> pos_follows v v'.
+Proof.
+  intros Hc H. destruct i; cbn [exec_instr] in H.
+  - inversion H; subst. apply pf_refl; exact Hc.
+  - eapply run_catch_follows; eassumption.
+  - eapply run_croak_follows; eassumption.
+  - eapply run_load_follows; eassumption.
+  - eapply run_reload_follows; eassumption.
+  - eapply run_map_follows; eassumption.
+  - eapply run_move_follows; eassumption.
+  - inversion H; subst. apply quiet_pf; [exact Hc|]. apply quiet_set_st. reflexivity.
+  - eapply run_incmp_follows; eassumption.
+  - inversion H; subst. apply quiet_pf; [exact Hc|apply quiet_set_pg].
+  - inversion H; subst. apply quiet_pf; [exact Hc|apply quiet_set_pg].
+  - inversion H; subst. apply quiet_pf; [exact Hc|apply quiet_set_pg].
+  - inversion H; subst. apply quiet_pf; [exact Hc|apply quiet_set_pg].
+Qed.
